@@ -730,6 +730,32 @@ pub fn worker_c11(tier: &str, shard: usize, nshards: usize, resume: Option<usize
     0
 }
 
+/// Every triple of alterations of bookkeeping numbers at three distinct positions (an identifier claimed twice needs the
+/// duplicate, a matching generation and an adjusted length at once).  Bases with more than `cap` single alterations of that
+/// kind are left to the pairs.
+fn push_numeric_triples(cases: &mut Vec<Case>, bi: usize, enc: Enc, numeric: &[Edit], cap: usize) {
+    if numeric.len() > cap {
+        return;
+    }
+    let pos = |e: &Edit| match e {
+        Edit::Alter(i, _) => *i,
+        _ => usize::MAX,
+    };
+    for (x, e1) in numeric.iter().enumerate() {
+        for (y, e2) in numeric.iter().enumerate().skip(x + 1) {
+            if pos(e1) == pos(e2) {
+                continue;
+            }
+            for e3 in &numeric[y + 1..] {
+                if pos(e3) == pos(e1) || pos(e3) == pos(e2) {
+                    continue;
+                }
+                cases.push(Case { base: bi, enc, edits: vec![*e3, *e2, *e1], json_idx: 0 });
+            }
+        }
+    }
+}
+
 fn enumerate(tier: &str) -> (Vec<BaseSer>, Vec<Case>) {
     let quick = tier == "quick";
     let bases = serialize_bases(2, if quick { 14 } else { 40 });
@@ -760,6 +786,7 @@ fn enumerate(tier: &str) -> (Vec<BaseSer>, Vec<Case>) {
                         }
                     }
                 }
+                push_numeric_triples(&mut cases, bi, enc, &numeric, if quick { 200 } else { 320 });
             }
             // thorough: all pairs of (non-swap) edits on the smallest bases
             if !quick && bi < 6 {
@@ -800,6 +827,7 @@ fn enumerate(tier: &str) -> (Vec<BaseSer>, Vec<Case>) {
                     }
                 }
             }
+            push_numeric_triples(&mut cases, bi, enc, &numeric, if quick { 200 } else { 320 });
         }
         let n = json_inputs(&b.json_seq).len();
         for k in 0..n {
